@@ -19,6 +19,11 @@ use wide::{u8x16, u64x2};
 #[allow(dead_code)]
 mod gf128;
 
+#[cfg(feature = "__verif")]
+pub(crate) fn verif_scalar_clmul128(a: u128, b: u128) -> (u128, u128) {
+    gf128::verif_scalar_clmul128(a, b)
+}
+
 /// A 128-bit block. Uses SIMD operations where available.
 ///
 /// This type is publicly re-exported when the private `__bench` feature
